@@ -386,6 +386,8 @@ theorem optReduce_spec (mc : List Int) (b : List Int) (hb : b.length = mc.length
 /-- a coefficient list of length `d` with all entries in `[0, p)` -/
 def CanonL (p d : ℕ) (l : List Int) : Prop := l.length = d ∧ ∀ c ∈ l, 0 ≤ c ∧ c < (p : Int)
 
+instance (p d : ℕ) (l : List Int) : Decidable (CanonL p d l) := by unfold CanonL; infer_instance
+
 theorem canonL_map_mod (hp : 0 < p) (l : List Int) :
     CanonL p l.length (l.map (fun c => c % (p : Int))) := by
   refine ⟨by simp, ?_⟩
@@ -438,6 +440,9 @@ def Canon (x : Fqp v p mc) : Prop := CanonL p mc.length x.coeffs
 
 /-- the value of an element in `(ZMod p)[X] / (X^d + Σ mcᵢ Xⁱ)` -/
 noncomputable def toQ (x : Fqp v p mc) : AdjoinRoot (modulus p mc) := evQ p mc x.coeffs
+
+instance (x : Fqp v p mc) : Decidable (WF x) := by unfold WF; infer_instance
+instance (x : Fqp v p mc) : Decidable (Canon x) := by unfold Canon; infer_instance
 
 theorem Canon.wf {x : Fqp v p mc} (h : Canon x) : WF x := h.1
 
